@@ -100,3 +100,43 @@ pub fn parse_spec(text: &str) -> Result<Vec<(String, AClass)>, String> {
 	}
 	Ok(out)
 }
+
+/// The abstract view of a class file taken by the independent parser `fbh::classfile::raw`
+/// (shares no code with /repo): header, method table, and per Code attribute the targets of the
+/// invokevirtual / invokespecial / invokestatic / invokeinterface instructions in order.
+pub fn abstract_class(bytes: &[u8]) -> Result<AClass, String> {
+	use fbh::classfile::raw::{self, AttrInfo, Const, Operands};
+	let c = raw::parse(bytes)?;
+	let name = c.class_name(c.this_class)?.code_points();
+	let super_class = if c.super_class == 0 { None } else { Some(c.class_name(c.super_class)?.code_points()) };
+	let mut interfaces = vec![];
+	for &i in &c.interfaces { interfaces.push(c.class_name(i)?.code_points()); }
+	let mut methods = vec![];
+	for m in &c.methods {
+		let mut calls = None;
+		for a in &m.attributes {
+			if let AttrInfo::Code(code) = &a.info {
+				let mut v = vec![];
+				for (_, insn) in raw::decode_code(&code.code)? {
+					let (kind, index) = match (insn.opcode, &insn.operands) {
+						(0xb6, Operands::Pool(i)) => (CallKind::Virtual, *i),
+						(0xb7, Operands::Pool(i)) => (CallKind::Special, *i),
+						(0xb8, Operands::Pool(i)) => (CallKind::Static, *i),
+						(0xb9, Operands::InvokeInterface { index, .. }) => (CallKind::Interface, *index),
+						_ => continue,
+					};
+					let (iface_ref, ci, nt) = match c.constant(index)? {
+						Const::Methodref(ci, nt) => (false, *ci, *nt),
+						Const::InterfaceMethodref(ci, nt) => (true, *ci, *nt),
+						k => return Err(format!("invoke operand {index} is {}", k.kind_name())),
+					};
+					let (n, d) = c.name_and_type(nt)?;
+					v.push(Call { kind, iface_ref, target: MRef { class: c.class_name(ci)?.code_points(), name: n.code_points(), desc: d.code_points() } });
+				}
+				calls = Some(v);
+			}
+		}
+		methods.push(AMeth { name: c.utf8(m.name_index)?.code_points(), desc: c.utf8(m.descriptor_index)?.code_points(), flags: m.access, calls });
+	}
+	Ok(AClass { name, flags: c.access, super_class, interfaces, methods })
+}
